@@ -22,13 +22,13 @@ import shutil
 
 from .. import flatmodel, netgen, supported_report as sr, tlc, vela_run
 from ..common import Run, MachineryError, SPEC, seed, ensure_repo_on_path
-from .c11 import tla_graph
+from .c11 import tla_graph, infer_absorbed
 
 ACCELS = ["ethos-u55-128", "ethos-u65-256"]
 ALL_ACCELS = ["ethos-u55-128", "ethos-u65-256", "ethos-u55-32", "ethos-u55-64", "ethos-u55-256", "ethos-u65-512"]
 FAF = {"NONE": 0, "RELU": 1, "RELU_N1_TO_1": 2, "RELU6": 3, "TANH": 4, "SIGN_BIT": 5}
 TT = {"int8": "INT8", "uint8": "UINT8", "int16": "INT16", "int32": "INT32", "float32": "FLOAT32", "int64": "INT64"}
-MODULES = ["SupportedOps.tla", "SupportedOpsGen.tla", "SupportedOpsTrace.tla", "SupportedOpsGen.cfg",
+MODULES = ["SupportedOps.tla", "SupportedOpsGen.tla", "SupportedOpsTrace.tla", "SupportedOpsGen.cfg", "SupportedOpsGenDesign.cfg",
            "SupportedOpsGenPairs.cfg", "SupportedOpsTrace.cfg"]
 
 
@@ -59,7 +59,19 @@ def cases_from_tlc(run, d, pairs):
     cases = [json.loads(tlc.parse_value(p)[1]) for p in res["printed"] if p.startswith('<<"CASE"')]
     if len(cases) != res["distinct"]:
         raise MachineryError("case emission incomplete: %d printed, %d states" % (len(cases), res["distinct"]))
-    return cases
+    ok = [c for c in cases if well_formed(c)]
+    run.cov["ill_formed_cases_skipped"] = run.cov.get("ill_formed_cases_skipped", 0) + len(cases) - len(ok)
+    return ok
+
+
+def well_formed(rec):
+    """A case is buildable only if every size is positive (constants of an odd report can produce others)."""
+    c = rec["c"]
+    nums = [c[k] for k in ("b", "h", "w", "c", "kh", "kw", "sh", "sw", "dh", "dw", "oc", "mult", "wic", "bbits")]
+    dims = list(c["s1"]) + list(c["s2"]) + list(c["so"]) + list(rec.get("ofm", []))
+    if c["op"] in ("CONV_2D", "DEPTHWISE_CONV_2D", "MAX_POOL_2D", "AVERAGE_POOL_2D"):
+        dims += [rec["oh"], rec["ow"]]
+    return all(isinstance(x, int) and x >= 1 for x in nums + dims) and all(0 <= a < len(c["s1"]) for a in c["axes"])
 
 
 def validate(d, events, timeout=1800):
@@ -139,19 +151,23 @@ def _bias(n, c, nch):
 
 
 def build_case(rec, variant):
-    """rec = {"c": case record, "oh", "ow"} as printed by TLC.  Returns (network description, name of the
-    operator's output tensor)."""
+    """rec = {"c": case record, "oh", "ow", "ofm"} as printed by TLC.  variant: "single" (the operator alone),
+    "sandwich" (third-party CUSTOM operators before and after: CPU-only neighbours) or "npu" (NPU-able
+    element-wise neighbours before and after, so the operator sits inside / next to an NPU region).
+    The operator under test always produces the tensor named 'y'."""
     c = rec["c"]
     op = c["op"]
     n = netgen.Net(3)
-    sandwich = variant == "sandwich"
 
     def ifm(name, shape, dt, scale=0.05, zp=0, per_axis=False):
-        if not sandwich:
+        if variant == "single":
             return _fm(n, name, shape, dt, scale, zp, is_input=True, per_axis=per_axis)
         src = _fm(n, name + "_src", shape, dt, scale, zp, is_input=True, per_axis=per_axis)
         t = _fm(n, name, shape, dt, scale, zp, per_axis=per_axis)
-        n.op("CUSTOM", [src], [t], custom_code="CpuOnlyBefore", custom_options=[1])
+        if variant == "sandwich":
+            n.op("CUSTOM", [src], [t], custom_code="CpuOnlyBefore", custom_options=[1])
+        else:
+            n.op("ADD", [src, src], [t], ["AddOptions", {"FusedActivationFunction": 0}])
         return t
 
     if op in ("CONV_2D", "DEPTHWISE_CONV_2D", "MAX_POOL_2D", "AVERAGE_POOL_2D"):
@@ -199,11 +215,28 @@ def build_case(rec, variant):
             s = n.fm("shape", [len(c["so"])], "INT32", None, is_input=True)
         y = _fm(n, "y", c["so"], c["odt"], 0.05 if c["qmatch"] else 0.08, 0, quant=c["hasq"])
         n.op(op, [x, s], [y], ["ReshapeOptions", {"NewShape": list(c["so"])}])
+    elif op == "SQUEEZE":
+        x = ifm("x", c["s1"], c["dt"])
+        y = _fm(n, "y", c["so"], c["odt"], 0.05 if c["qmatch"] else 0.08, 0, quant=c["hasq"])
+        n.op(op, [x], [y], ["SqueezeOptions", {"SqueezeDims": [0]}])
+    elif op == "EXPAND_DIMS":
+        x = ifm("x", c["s1"], c["dt"])
+        ax = n.const("axis", [], "INT32", data=[0])
+        y = _fm(n, "y", c["so"], c["odt"], 0.05 if c["qmatch"] else 0.08, 0, quant=c["hasq"])
+        n.op(op, [x, ax], [y], ["ExpandDimsOptions", {}])
+    elif op == "MEAN":
+        x = ifm("x", c["s1"], c["dt"])
+        ax = n.const("axes", [len(c["axes"])], "INT32", data=list(c["axes"]))
+        y = _fm(n, "y", rec["ofm"], c["odt"], 0.05, 0, quant=c["hasq"])
+        n.op(op, [x, ax], [y], ["ReducerOptions", {"KeepDims": bool(c["keep"])}])
     else:
         raise MachineryError("no builder for " + op)
-    if sandwich:
+    if variant != "single":
         z = _fm(n, "z", n.t[y]["shape"], c["odt"], 0.07, -5, quant=c["hasq"])
-        n.op("CUSTOM", [y], [z], custom_code="CpuOnlyAfter", custom_options=[2])
+        if variant == "sandwich":
+            n.op("CUSTOM", [y], [z], custom_code="CpuOnlyAfter", custom_options=[2])
+        else:
+            n.op("ADD", [y, y], [z], ["AddOptions", {"FusedActivationFunction": 0}])
         return n.desc([z])
     return n.desc([y])
 
@@ -212,16 +245,20 @@ def build_case(rec, variant):
 # observation
 # ------------------------------------------------------------------------------------------------
 def observe(op, in_bytes, out_bytes):
+    """Where did the operator producing 'y' go?  "CPU": still an operator of the output model (+ whether verbatim);
+    "NPU": gone, and explained by an ethos-u operator (same inference as C11's absorbed claim);
+    "LOST": neither."""
     S = tla_graph(flatmodel.abstract(in_bytes))
     O = tla_graph(flatmodel.abstract(out_bytes))
-    src = next(o for o in S["ops"] if o["outs"] == ["y"])
-    kept = [o for o in O["ops"] if o["code"] == src["code"] and o["outs"] == ["y"]]
+    idx = next(i for i, o in enumerate(S["ops"], 1) if o["outs"] and o["outs"][0] == "y")
+    src = S["ops"][idx - 1]
+    kept = [o for o in O["ops"] if o["code"] == src["code"] and o["outs"] == src["outs"]]
     if kept:
         diff = [f for f in ("ver", "opts", "copt", "ins", "cdat") if kept[0][f] != src[f]]
         return "CPU", not diff and len(kept) == 1, diff
-    if any(o["code"] == "CUSTOM:ethos-u" and "y" in o["outs"] for o in O["ops"]):
+    if any(idx in a for a in infer_absorbed(S, O)):
         return "NPU", True, []
-    return "NONE", True, []
+    return "LOST", True, []
 
 
 def failure_signature(r):
@@ -332,8 +369,6 @@ def run_cases(run, d, recs, variants, accels):
             continue
         obs, unchanged, diff = observe(m["rec"]["c"]["op"], r["in_bytes"], r["out_bytes"])
         m.update(observed=obs, unchanged=unchanged, diff=diff, reason=vela_reason(r["stdout"]), t=len(events))
-        if obs == "NONE":
-            raise MachineryError("operator under test neither preserved nor absorbed: %s" % json.dumps(m["rec"]["c"]))
         events.append({"t": len(events), "c": m["rec"]["c"], "observed": obs, "unchanged": unchanged})
     return jobs, meta, events, failed
 
@@ -353,6 +388,9 @@ def report_violations(run, viol, meta, jobs):
             key = "ViolatesButFails|%s|%s|%s" % (c["op"], "+".join(sorted(failing)), m["reason"])
             what = ("%s violates the listed constraint(s) %s, so the report promises CPU placement, but the compilation "
                     "fails: %s" % (c["op"], sorted(failing), m["reason"]))
+        elif kind == "OperatorLost":
+            key = "OperatorLost|%s" % c["op"]
+            what = "%s is neither preserved in the output model nor explained by an ethos-u operator" % c["op"]
         elif kind == "SatisfiesButFails":
             key = "SatisfiesButFails|%s|%s" % (c["op"], m["reason"])
             what = "%s satisfies every listed constraint but the compilation fails: %s" % (c["op"], m["reason"])
@@ -365,23 +403,60 @@ def report_violations(run, viol, meta, jobs):
             {"net": j["net"], "opts": j["opts"], "case": m["rec"], "variant": m["variant"]})
 
 
-def negative_controls(run, md, events, viol):
-    """(i) a flipped observation must be rejected; (ii) a report whose range constants differ by one from those the
-    placements were recorded under must make some recorded placement inconsistent.  Only records that are
-    consistent with the real report are used, so the controls do not depend on what the tree under test does."""
+GOLDEN_DIR = os.path.join(os.path.dirname(os.path.dirname(os.path.abspath(__file__))), "golden")
+
+
+def regen_golden():
+    """Maintenance (run by hand on the unchanged tree after changing the case record layout):
+    /venv/bin/python -c "from harness.checks import c16; c16.regen_golden()"  (cwd /verif)."""
+    run = Run("C16", "quick")
+    try:
+        d = run.tmpdir("c16gold")
+        md = sr.generate(d)
+        with open(os.path.join(GOLDEN_DIR, "SUPPORTED_OPS.golden.md"), "w") as f:
+            f.write(md)
+        d, *_ = prepare_spec(run, md)
+        cases = cases_from_tlc(run, d, False)
+        keep = [c for c in cases if c["expect"] in ("NPU", "CPU") and
+                c["c"]["axis"] in ("nominal", "kernel_h", "stride_h", "stride_w", "dim_h", "dim_w", "batch", "dtype",
+                                   "mean_axes", "mean_width", "quant_differs")]
+        ev = [{"t": k, "c": c["c"], "observed": c["expect"], "unchanged": True} for k, c in enumerate(keep)]
+        with open(os.path.join(GOLDEN_DIR, "c16_events.json"), "w") as f:
+            json.dump({"_comment": "synthetic placements that agree with SUPPORTED_OPS.golden.md (observed := Expect); base of "
+                                   "C16's negative controls, independent of the tree under test", "events": ev}, f)
+        print("golden: %d events" % len(ev))
+    finally:
+        run.cleanup()
+
+
+def negative_controls(run):
+    """Frozen inputs only (harness/golden): a report generated by the unchanged tree and placements that agree with it.
+    (i) the golden placements are accepted; (ii) every flipped placement is rejected; (iii) a report whose range
+    constants are off by one makes golden placements inconsistent.  Nothing depends on the tree under test."""
     import copy
-    bad_t = {v[0] for v in viol}
-    good = [e for e in events if e["t"] not in bad_t and e["observed"] != "FAIL"]
+    with open(os.path.join(GOLDEN_DIR, "SUPPORTED_OPS.golden.md")) as f:
+        md = f.read()
+    with open(os.path.join(GOLDEN_DIR, "c16_events.json")) as f:
+        good = json.load(f)["events"]
     d, *_ = prepare_spec(run, md)
+    des = tlc.run("SupportedOpsGen", "SupportedOpsGenDesign.cfg", workers=1, timeout=900, cwd=d)
+    if not des.ok:
+        raise MachineryError("design-level invariants of SupportedOpsGen fail on the golden report: %s %s\n%s" % (
+            des["status"], des.get("violated"), des["output"][-1500:]))
+    run.add_mc("SupportedOpsGen(design invariants, golden report)", des)
+    _, v0 = validate(d, good)
+    if v0:
+        raise MachineryError("negative control: golden placements rejected under the golden report (%s)" % v0[:3])
     flipped = []
     for e in good:
-        if e["c"]["axis"] == "nominal" and len(flipped) < 4:
+        if e["c"]["axis"] == "nominal":
             f = copy.deepcopy(e)
             f["observed"] = "CPU" if e["observed"] == "NPU" else "NPU"
             f["t"] = len(flipped)
             flipped.append(f)
-    _, v = validate(d, flipped)
-    if len({x[0] for x in v}) != len(flipped) or not flipped:
+    lost = dict(copy.deepcopy(good[0]), observed="LOST", t=len(flipped))
+    _, v = validate(d, flipped + [lost])
+    if len({x[0] for x in v}) != len(flipped) + 1 or not flipped:
         raise MachineryError("negative control: flipped placements not rejected (%s)" % v)
 
     def shift(K, listed):
@@ -390,14 +465,24 @@ def negative_controls(run, md, events, viol):
         K["DimHi"] -= 1
         K["PsHi"] += 1
         K["DwSHi"] -= 1
+        K["MeanWMax"] += 1
     d2, *_ = prepare_spec(run, md, mutate=shift)
-    sub = [dict(e, t=k) for k, e in enumerate(good)]
-    _, v2 = validate(d2, sub)
-    if len(v2) < 2:
+    _, v2 = validate(d2, good)
+    kinds = {x[1] for x in v2}
+    if not {"SatisfiesButCpu", "ViolatesButNpu"} <= kinds:
         raise MachineryError("negative control: report constants shifted by one were not detected (%s)" % v2)
-    run.cov["negative_controls"] = ["flipped observation x%d" % len(flipped),
-                                    "report constants shifted by one (DilHHi+1, MpHHi-1, DimHi-1, PsHi+1, DwSHi-1): "
-                                    "%d inconsistencies" % len(v2)]
+
+    def unlist(K, listed):          # a constraint vanishes from the report but is still enforced
+        listed["RESHAPE"] = [x for x in listed["RESHAPE"] if x != "rs_quant"]
+        listed["CONV_2D"] = [x for x in listed["CONV_2D"] if x != "batch"]
+    d3, *_ = prepare_spec(run, md, mutate=unlist)
+    _, v3 = validate(d3, good)
+    if not any(x[1] == "SatisfiesButCpu" for x in v3):
+        raise MachineryError("negative control: a constraint missing from the report was not detected (%s)" % v3)
+    run.cov["negative_controls"] = ["golden placements accepted (%d)" % len(good),
+                                    "flipped placement x%d, lost operator" % len(flipped),
+                                    "report constants shifted by one: %d inconsistencies" % len(v2),
+                                    "constraint removed from the report only: %d inconsistencies" % len(v3)]
 
 
 def main(tier, only=None):
@@ -412,7 +497,15 @@ def main(tier, only=None):
 def _main(run, tier):
     sd = seed()
     rng = random.Random(sd)
-    d, md, parsed, K, listed, unmodelled = prepare_spec(run)
+    try:
+        d, md, parsed, K, listed, unmodelled = prepare_spec(run)
+    except MachineryError as e:
+        if "supported-ops-report failed" not in str(e):
+            raise
+        run.violation("ReportGeneration|failed", "the working tree cannot generate its supported-operators report: %s"
+                      % str(e)[-300:], {})
+        negative_controls(run)
+        return run.finish()
     for op in sr.COVERED:
         if op not in parsed["table"]:
             run.violation("ReportMatchesLists|%s|missing-from-report" % op, "%s is not in the generated report" % op, {})
@@ -423,27 +516,25 @@ def _main(run, tier):
     pairs = [c for c in cases if c["c"]["axis2"]]
     rng.shuffle(pairs)
     if quick:
-        recs = single
-        jobs, meta, events, failed = run_cases(run, d, recs, ["single"], lambda i: [ACCELS[i % 2]])
-        # a slice of the cases again with CPU-only neighbours and on the other accelerator
+        jobs, meta, events, failed = run_cases(run, d, single, ["single"], lambda i: [ACCELS[i % 2]])
+        # every case again inside an NPU region, and a slice of them between CPU-only neighbours
         extra = [r for k, r in enumerate(single) if k % 4 == sd % 4]
-        j2, m2, e2, f2 = run_cases(run, d, extra, ["sandwich"], lambda i: [ACCELS[(i + 1) % 2]])
+        j2, m2, e2, f2 = run_cases(run, d, single, ["npu"], lambda i: [ACCELS[(i + 1) % 2]])
+        j3, m3, e3, f3 = run_cases(run, d, extra, ["sandwich"], lambda i: [ACCELS[i % 2]])
     else:
-        recs = single
-        jobs, meta, events, failed = run_cases(run, d, recs, ["single", "sandwich"], lambda i: ALL_ACCELS)
+        jobs, meta, events, failed = run_cases(run, d, single, ["single", "sandwich", "npu"], lambda i: ALL_ACCELS)
         j2, m2, e2, f2 = run_cases(run, d, pairs[:4000], ["single"], lambda i: [ALL_ACCELS[i % 6], ALL_ACCELS[(i + 3) % 6]])
-    # merge the two batches into one trace
-    for m in m2:
-        if "t" in m:
-            m["t"] += len(events)
-    for e in e2:
-        e["t"] += len(events)
-    jobs, meta, events = jobs + j2, meta + m2, events + e2
-    for k, v in f2.items():
-        failed.setdefault(k, []).extend(v)
+        j3, m3, e3, f3 = run_cases(run, d, pairs[4000:5000], ["npu"], lambda i: [ALL_ACCELS[i % 6]])
+    for jb, mb, eb, fb in ((j2, m2, e2, f2), (j3, m3, e3, f3)):
+        for m in mb:
+            if "t" in m:
+                m["t"] += len(events)
+        for e in eb:
+            e["t"] += len(events)
+        jobs, meta, events = jobs + jb, meta + mb, events + eb
+        for k, v in fb.items():
+            failed.setdefault(k, []).extend(v)
     nfail = sum(len(v) for v in failed.values())
-    if nfail == len(jobs):
-        raise MachineryError("no case compiled (%d of %d failed): %s" % (nfail, len(jobs), json.dumps(failed)[:1500]))
     res, viol = validate(d, events)
     run.add_trace_run("SupportedOpsTrace", res, len(events))
     report_violations(run, viol, meta, jobs)
@@ -455,15 +546,13 @@ def _main(run, tier):
             for cid in r["failing"]:
                 hit.setdefault((r["c"]["op"], cid), set()).add(m["observed"])
             run.nontrivial((r["c"]["op"], r["c"]["axis"], r["c"]["axis2"], tuple(r["failing"]), m["variant"], m["accel"][:9]))
-    exp = {e: sum(1 for m in meta if m["rec"]["expect"] == e and m.get("observed") in ("NPU", "CPU")) for e in ("NPU", "CPU", "ANY")}
-    if not exp["NPU"] or not exp["CPU"]:
-        raise MachineryError("vacuity: expectations %s" % exp)
+    exp = {e: sum(1 for m in meta if m["rec"]["expect"] == e) for e in ("NPU", "CPU", "ANY")}
     for x in (m for m in meta if m.get("observed") in ("NPU", "CPU")):
         if len(run.cov["samples"]) < 6 and x["rec"]["c"]["axis"] in ("kernel_h", "stride_w", "dim_h", "broadcast"):
             run.sample({"case": {k: v for k, v in x["rec"]["c"].items() if v not in ("", [], None)},
                         "expect": x["rec"]["expect"], "failing": x["rec"]["failing"], "observed": x["observed"],
                         "accel": x["accel"], "variant": x["variant"]})
-    negative_controls(run, md, events, viol)
+    negative_controls(run)
     run.cov["expectations"] = exp
     run.cov["constraint_kinds_exercised"] = sorted("%s:%s" % k for k in hit)
     run.cov["not_compiled"] = {k: v[:6] for k, v in failed.items()}
